@@ -366,36 +366,28 @@ func (g *Generator) generateUnwrapMarshalJSON(gf *protogen.GeneratedFile, contai
 	gf.P("return []byte(\"null\"), nil")
 	gf.P("}")
 	gf.P()
-	gf.P("out := make(map[string]json.RawMessage)")
+	gf.P("// Every field but the unwrap maps keeps its proto3 JSON form: protojson writes the message and only the")
+	gf.P("// unwrap map members are rewritten (encoding/json on the struct would write Go struct tags: snake_case")
+	gf.P("// keys, numeric int64, enum numbers, {seconds, nanos} timestamps).")
+	gf.P("base, err := protojson.Marshal(x)")
+	gf.P("if err != nil {")
+	gf.P("return nil, err")
+	gf.P("}")
+	gf.P("var out map[string]json.RawMessage")
+	gf.P("if err := json.Unmarshal(base, &out); err != nil {")
+	gf.P("return nil, err")
+	gf.P("}")
 	gf.P()
 
-	// Handle each field in the message
+	// Rewrite the unwrap map fields
 	for _, field := range containing.Message.Fields {
-		fieldName := field.GoName
 		jsonName := getJSONFieldName(field)
-
-		// Check if this is one of our unwrap map fields
-		var unwrapMapField *UnwrapMapField
 		for _, mf := range containing.MapFields {
 			if mf.Field == field {
-				unwrapMapField = mf
+				gf.P(`delete(out, "`, jsonName, `")`)
+				g.generateUnwrapMapMarshal(gf, field, mf, jsonName)
 				break
 			}
-		}
-
-		switch {
-		case unwrapMapField != nil:
-			// This is an unwrap map field - generate unwrap logic
-			g.generateUnwrapMapMarshal(gf, field, unwrapMapField, jsonName)
-		case field.Desc.IsMap():
-			// Regular map field
-			g.generateRegularMapMarshal(gf, field, jsonName)
-		case field.Desc.IsList():
-			// Repeated field
-			g.generateRepeatedFieldMarshal(gf, field, jsonName)
-		default:
-			// Scalar or message field
-			g.generateScalarFieldMarshal(gf, field, fieldName, jsonName)
 		}
 	}
 
@@ -540,30 +532,36 @@ func (g *Generator) generateUnwrapUnmarshalJSON(gf *protogen.GeneratedFile, cont
 	gf.P("}")
 	gf.P()
 
-	// Handle each field
+	// The unwrap map members are taken out; protojson decodes everything else (and resets x), then the unwrap
+	// maps are decoded into the message.
+	type unwrapMember struct {
+		field *protogen.Field
+		mf    *UnwrapMapField
+	}
+	var members []unwrapMember
 	for _, field := range containing.Message.Fields {
-		fieldName := field.GoName
-		jsonName := getJSONFieldName(field)
-
-		// Check if this is one of our unwrap map fields
-		var unwrapMapField *UnwrapMapField
 		for _, mf := range containing.MapFields {
 			if mf.Field == field {
-				unwrapMapField = mf
+				members = append(members, unwrapMember{field, mf})
 				break
 			}
 		}
-
-		switch {
-		case unwrapMapField != nil:
-			g.generateUnwrapMapUnmarshal(gf, field, unwrapMapField, jsonName)
-		case field.Desc.IsMap():
-			g.generateRegularMapUnmarshal(gf, field, jsonName)
-		case field.Desc.IsList():
-			g.generateRepeatedFieldUnmarshal(gf, field, jsonName)
-		default:
-			g.generateScalarFieldUnmarshal(gf, field, fieldName, jsonName)
-		}
+	}
+	for _, m := range members {
+		jsonName := getJSONFieldName(m.field)
+		gf.P(`unwrapRaw`, m.field.GoName, `, has`, m.field.GoName, ` := raw["`, jsonName, `"]`)
+		gf.P(`delete(raw, "`, jsonName, `")`)
+	}
+	gf.P("rest, err := json.Marshal(raw)")
+	gf.P("if err != nil {")
+	gf.P("return err")
+	gf.P("}")
+	gf.P("if err := protojson.Unmarshal(rest, x); err != nil {")
+	gf.P("return err")
+	gf.P("}")
+	gf.P()
+	for _, m := range members {
+		g.generateUnwrapMapUnmarshal(gf, m.field, m.mf, getJSONFieldName(m.field))
 	}
 
 	gf.P("return nil")
@@ -586,8 +584,8 @@ func (g *Generator) generateUnwrapMapUnmarshal(
 		elementTypeIdent = &ident
 	}
 
-	gf.P("// Handle unwrap map field: ", fieldName)
-	gf.P(`if rawField, ok := raw["`, jsonName, `"]; ok {`)
+	gf.P("// Handle unwrap map field: ", fieldName, " (member ", jsonName, ")")
+	gf.P("if rawField := unwrapRaw", fieldName, "; has", fieldName, ` && string(rawField) != "null" {`)
 	gf.P("var mapRaw map[string]json.RawMessage")
 	gf.P("if err := json.Unmarshal(rawField, &mapRaw); err != nil {")
 	gf.P("return err")
